@@ -55,6 +55,7 @@ package parser
 //@ safety
 //@ requires PInv(p) && tokOK(p.l, t)
 //@ ensures[C20.parser.inv] PInv(p)
+//@ ensures[C03.err.set] p.err != nil && result == nil
 
 //@ func (*Parser).illegalToken
 //@ props C20 C03
@@ -68,6 +69,7 @@ package parser
 //@ requires PInv(p)
 //@ assume[src.nul] len(p.l.characters) > 0 ==> p.l.characters[0] != 0 && (p.l.prevToken.Type == "EOF" ==> p.l.position >= 1)
 //@ ensures[C20.parser.inv] PInv(p)
+//@ ensures[C03.err.set] !result ==> p.err != nil
 
 // ---- C03: a statement is either absent (nil interface) or a real node: never a typed nil pointer ----------
 //@ func (*Parser).parseStatement
